@@ -11,6 +11,8 @@ import XpDriver.C19
 import XpDriver.C07
 import XpDriver.C08
 import XpDriver.C20
+import XpDriver.C09
+import XpDriver.C05
 open Lean Xp Xp.Proto
 
 def dispatch (op : String) (j : Json) : R Json :=
@@ -43,6 +45,13 @@ def dispatch (op : String) (j : Json) : R Json :=
   | "craft_patches" => Ops.craftPatches j
   | "craft_chunks" => Ops.craftChunks j
   | "craft_importance" => Ops.craftImportance j
+  | "rise_up" => Ops.riseUp j
+  | "rise_grid" => Ops.riseGrid j
+  | "rise_spec" => Ops.riseSpec j
+  | "align_gsa" => Ops.alignGsa j
+  | "align_post" => Ops.alignPost j
+  | "align_sobol" => Ops.alignSobol j
+  | "align_lime" => Ops.alignLime j
   | _ => throw "bad-op"
 
 def step (line : String) : String :=
